@@ -185,4 +185,5 @@ let run (id : string) (_hdr : string list) (lines : string list list) (out : str
        | _ -> failwith ("C20: bad line: " ^ Stdlib.String.concat " " l));
       go r
   in
+  pr "BEGIN";
   go lines
